@@ -203,6 +203,40 @@ def main(argv):
         elif b['status'] not in ('ok', 'skipped'):
             undecided.append('kani %s: %s' % (b['harness'], b['status']))
 
+    # thorough tier: validate the parser-fact assumptions on real trees, and sweep the property's oracle over the corpus on the real
+    # code (sampled, never counted as proved; a failing input that did not fail on the unchanged tree is a violation with a replay)
+    assumption_validation = None
+    sweep_hits = []
+    if tier == 'thorough' and os.path.realpath(asm.REPO) == '/repo' and replaymod.build():
+        files = replaymod.corpus()
+        try:
+            pf = subprocess.run([replaymod.BIN, 'FACTS'] + files, capture_output=True, text=True, timeout=1200)
+            assumption_validation = {'what': 'parser facts PF0-PF13 and the grammar table on every node of %d corpus files (inputs and formatted outputs)' % len(files),
+                                     'cmd': 'build/replay-target/debug/vp-replay FACTS <corpus>', 'summary': pf.stderr.strip()[-300:], 'violations': [l for l in pf.stdout.split('\n') if l.strip()][:20]}
+            if pf.returncode != 0:
+                undecided.append('parser facts assumed by the contracts do not hold on the corpus: ' + '; '.join(assumption_validation['violations'][:3]))
+        except Exception as e:  # noqa
+            assumption_validation = {'error': str(e)}
+        if pid in replaymod.LIB_PROPS:
+            t1 = time.time()
+            known_inputs = replaymod.baseline_failures(pid)
+            use = [f for f in files if os.path.relpath(f, asm.REPO if f.startswith(asm.REPO) else VERIF) not in known_inputs]
+            sweep_hits = replaymod.run_oracle(pid, use, extra=['--max', '200'])
+            bounded.append({'harness': 'oracle sweep', 'kind': 'sampled', 'target': 'statement of %s checked by parsing input and output with typst-syntax' % pid,
+                            'bound': '%d corpus inputs x widths 0/20/40/80/120 x tabs 2/4 (%d inputs skipped: they fail on the unchanged tree, see replay/baseline_failures.json)' % (len(use), len(files) - len(use)),
+                            'status': 'failed' if sweep_hits else 'ok', 'seconds': round(time.time() - t1, 1)})
+        elif pid in ('C14', 'C15', 'C16'):
+            import cli_replay
+            rec0 = {}
+            t1 = time.time()
+            hit = cli_replay.find_failing_scenario(pid, rec0)
+            bounded.append({'harness': 'CLI scenarios', 'kind': 'sampled', 'target': 'the real typstyle binary in a scratch directory', 'bound': '%d scenarios' % len(cli_replay.scenarios(pid)),
+                            'status': 'failed' if hit else 'ok', 'seconds': round(time.time() - t1, 1), 'note': rec0.get('replay_note', '')})
+            if hit:
+                sweep_hits = [{'file': '(CLI scenario) ' + rec0['input']['scenario'], 'width': 0, 'tab': 0, 'why': rec0['input']['oracle_says'], 'scenario': rec0['input']}]
+    for h in sweep_hits[:3]:
+        failures.append(runner.Failure('sweep', h['file'], 'sweep:%s' % os.path.basename(h['file']), [pid], 'oracle of %s fails on the real code: %s' % (pid, h['why']), None, None, json.dumps(h)))
+
     # classify failures
     violations = []
     known_printed = []
@@ -218,7 +252,7 @@ def main(argv):
     real_violations = []
     for fl in violations:
         base_key = re.sub(r'#pre\(.*$', '#safety', fl.obligation)
-        if not base_ids or fl.obligation in base_ids or base_key in base_ids or fl.obligation.startswith('kani:'):
+        if not base_ids or fl.obligation in base_ids or base_key in base_ids or fl.obligation.startswith(('kani:', 'sweep:')):
             real_violations.append(fl)
         else:
             undecided.append('failing obligation %s is not in the baseline' % fl.obligation)
@@ -242,7 +276,12 @@ def main(argv):
         rec = {'property': pid, 'obligation': fl.obligation, 'function': fl.fn, 'repo_location': fl.repo_loc,
                'clause': fl.clause, 'message': fl.message, 'verifier_output': fl.rendered, 'input': None,
                'front_end_workarounds': [x for x in recoveries if x.startswith('[%s]' % fl.unit)]}
-        found = replaymod.find_failing_input(pid, fl, rec)
+        if fl.obligation.startswith('sweep:'):
+            h = json.loads(fl.rendered)
+            rec['input'] = h.get('scenario') or {'file': h['file'], 'width': h['width'], 'tab': h['tab'], 'reorder': h.get('reorder', False), 'oracle_says': h['why']}
+            found = True
+        else:
+            found = replaymod.find_failing_input(pid, fl, rec)
         with open(path, 'w') as f:
             json.dump(rec, f, indent=1)
         replay_paths.append(path)
@@ -281,6 +320,7 @@ def main(argv):
             'known_findings_printed': [k['id'] for k in known_printed],
             'undecided': undecided,
             'front_end_workarounds': recoveries,
+            'assumption_validation': assumption_validation,
             'failures_tagged_for_other_properties': sorted({f.obligation for f in other_failures}),
             'solver_time_ms': round(sum(r['main'].smt_ms for r in results.values()), 1),
         },
